@@ -206,14 +206,17 @@ def run(ctx, chk):
 
     R4 = chk.rule("R-FRESH", "every Parser starts with an empty TypeTracker; the crate has no mutable, interior-mutable or thread-local "
                   "static, so nothing survives from an earlier parse; the tracker's map is private")
-    pn = ctx.rspirv.fn(PAR, "new", "Parser")
-    init = [n for n in walk(pn["body"]) if n[0] == "struct" and n[1].split("::")[-1] == "Parser"]
-    tt = show(dict((a, b) for a, b in init[0][2]).get("type_tracker")) if init else None
-    chk.check(R4, tt == "TypeTracker::new()", "Parser::new:tracker", "type_tracker initialised with %s" % tt, raw.where("new", "Parser"))
-    tn = ctx.rspirv.fn(TRK, "new", "TypeTracker")
-    tinit = [n for n in walk(tn["body"]) if n[0] == "struct" and n[1].split("::")[-1] == "TypeTracker"]
-    tv_ = show(dict((a, b) for a, b in tinit[0][2]).get("types")) if tinit else None
-    chk.check(R4, tv_ is not None and tv_.endswith("HashMap::new()"), "TypeTracker::new:empty", "types initialised with %s" % tv_, raw.where("new", "TypeTracker"))
+    from . import headerx
+    try:
+        pv = headerx.parser_new(ctx)
+        tt = pv[2].get("type_tracker") if isinstance(pv, tuple) and pv[0] == "struct" else None
+        good = isinstance(tt, tuple) and tt[0] == "struct" and tt[1] == "TypeTracker" and list(tt[2].values()) == [("map", {})]
+        chk.check(R4, good, "Parser::new:tracker", "Parser::new yields %s: the type tracker is not a new, empty TypeTracker" % headerx.short(pv)[:200],
+                  raw.where("new", "Parser"), sample=headerx.short(pv)[:200])
+        chk.check(R4, isinstance(pv, tuple) and pv[0] == "struct" and pv[2].get("inst_index") == 0, "Parser::new:inst_index=0",
+                  "Parser::new yields %s" % headerx.short(pv)[:200], raw.where("new", "Parser"))
+    except Anchor as ex:
+        chk.bad(R4, "Parser::new:tracker", "not analysable: %s" % ex, raw.where("new", "Parser"))
     for cname in ("rspirv", "spirv"):
         for s in ctx.mir(cname).statics:
             chk.check(R4, not s["mut"] and s["freeze"] and not s["thread_local"], "static:%s::%s" % (cname, s["path"]),
@@ -234,7 +237,9 @@ def run(ctx, chk):
     chk.check(R5, at.get("LiteralBit32", ("?",))[0] == "word", "LiteralBit32=1-word", "encoding %s" % (at.get("LiteralBit32"),), raw.where("assemble_into", "Operand", "assemble.rs"))
     chk.check(R5, at.get("LiteralBit64", ("?",))[0] == "word2", "LiteralBit64=2-words-low-first", "encoding %s" % (at.get("LiteralBit64"),), raw.where("assemble_into", "Operand", "assemble.rs"))
     dm = codec.decoder_methods(ctx)
-    from .c02 import bit64_low_first
-    chk.check(R5, dm.get("bit32", {}).get("cls") == "word" and "bit64" in dm and bit64_low_first(dm["bit64"]["fn"]), "decoder:bit32/bit64",
-              "bit32 is not one word() or bit64 is not (second << 32) | first", raw.where("bit64", "Decoder"))
+    from . import stringx
+    for m_ in ("bit32", "bit64"):
+        pb = stringx.hand_problem(ctx, m_) if m_ in dm else "not found"
+        chk.check(R5, pb is None, "decoder:" + m_, "%s is not %s: %s" % (m_, "one word()" if m_ == "bit32" else "(second word << 32) | first word", pb),
+                  raw.where(m_, "Decoder"))
     chk.analysed.update({"width_cells": ncell, "widths_tested": widths, "track_cases": ntr})
